@@ -148,15 +148,20 @@ Definition host_of_authority (authority : bytes) : bytes :=
   let h := strip_port authority in
   if N.eqb (last h 0%N) DOT then removelast h else h.
 
+Definition exact_covers (host entry : bytes) : bool :=
+  if mem_byte STAR entry then false else eq_ic host entry.
+Definition wild_covers (host suffix : bytes) : bool :=
+  if mem_byte STAR suffix then false
+  else match split_once DOT host with
+       | Some (leftmost, rest) => negb (is_nil leftmost) && eq_ic rest suffix
+       | None => false
+       end.
 Definition entry_covers (host entry : bytes) : bool :=
   match entry with
-  | 42%N :: 46%N :: suffix =>                                   (* "*." *)
-    if mem_byte STAR suffix then false
-    else match split_once DOT host with
-         | Some (leftmost, rest) => negb (is_nil leftmost) && eq_ic rest suffix
-         | None => false
-         end
-  | _ => if mem_byte STAR entry then false else eq_ic host entry
+  | c1 :: c2 :: suffix =>
+    if N.eqb c1 STAR && N.eqb c2 DOT then wild_covers host suffix      (* strip_prefix("*.") *)
+    else exact_covers host entry
+  | _ => exact_covers host entry
   end.
 
 Definition authority_matched (authority : bytes) (names : list bytes) : option bytes :=
